@@ -68,8 +68,12 @@ def history(r, M, thorough):
         elif k < 7:
             ops.append("tpc computeall %d" % r.below(2))
             ops.append("tpc evalall %d %d %d" % trip())
-        elif k < 10:
+        elif k < 9:
             ops.append("tpc get %d %d %d %d %d %d %d" % (tuple(pick()) + trip()))
+        elif k < 10:
+            # on-demand element: a single look-up whose result is prepared, computed and evaluated
+            n1 = r.range(-2, 2)
+            ops.append("tpc ondemand %d %d %d %d %d %d %d" % (tuple(pick()) + (n1, n1 + r.choice([1, -1, 2]), r.range(-2, 2))))
         elif k < 11:
             ops.append("tpc prepare %d %d %d %d" % tuple(pick()))
         elif k < 12:
@@ -94,6 +98,10 @@ def history(r, M, thorough):
             n2 = n1 + r.choice([1, -1, 2])
             n3 = r.choice([n1 + 1, n2 + 1, n1 - 2])
             ops.append("tpc get %d %d %d %d %d %d %d" % (tuple(v) + (n1, n2, n3)))
+    # an on-demand element that is an alias (both pairs exchanged) of nothing stored yet
+    i, j = r.below(M), r.below(M)
+    n1 = r.range(-2, 2)
+    ops.append("tpc ondemand %d %d %d %d %d %d %d" % (max(i, j), min(i, j), min(i, j), max(i, j), n1, n1 + 1, n1 - 1))
     ops.append("tpc evalall %d %d %d" % trip())
     return ops
 
